@@ -52,6 +52,9 @@ def run_check(prop: str, tier: str, verif_seed: int, runs: int | None, shrink_en
     cap = float(os.environ.get("VERIF_BUDGET_S", WALL_CAP[tier]))
     deadline = t0 + cap
     known = load_known()
+    run_base = os.path.join(boot.scratch_base(), f"mdpsim-run-{os.getpid()}")
+    os.makedirs(run_base, exist_ok=True)
+    os.environ["MDPSIM_SCRATCH_BASE"] = run_base  # inherited by every worker and lifetime process
     pools = Pools()
     items = []
     if prop == "C03":
@@ -99,10 +102,7 @@ def run_check(prop: str, tier: str, verif_seed: int, runs: int | None, shrink_en
         rc = finish(prop, tier, verif_seed, results, extra, det, known, pools, t0, shrink_enabled)
     finally:
         pools.shutdown()
-        try:
-            shutil.rmtree(boot.scratch_base() + f"/mdpsim-{os.getpid()}", ignore_errors=True)
-        except Exception:
-            pass
+        shutil.rmtree(run_base, ignore_errors=True)
     return rc
 
 
